@@ -138,6 +138,7 @@ class FnSpec:
         self.id, self.file, self.path = fid, file, path
         self.safety, self.ret, self.rewrites = [], None, []
         self.header, self.loops, self.before, self.after, self.body_start = [], {}, [], [], []
+        self.loop_iter = {}
         self.assume = False
         self.header_files = []
         self.sig_rewrites = []
@@ -219,7 +220,10 @@ def parse_template(path):
                         fs.header += _read(hf).rstrip("\n").split("\n")
                         target = None
                     elif d.startswith("loop "):
-                        target = fs.loops.setdefault(int(d.split()[1]), [])
+                        w = d.split()
+                        target = fs.loops.setdefault(int(w[1]), [])
+                        if len(w) >= 4 and w[2] == "iter":
+                            fs.loop_iter[int(w[1])] = w[3]
                     elif d.startswith("before "):
                         target = []
                         fs.before.append((d[len("before "):].strip().strip('"'), target))
@@ -401,13 +405,28 @@ def build_fn(fs, canary=False):
                 j += 1
             if brace is not None:
                 loop_idx += 1
-                loop_positions.append((loop_idx, btoks[brace].start, t.text))
+                in_end = None
+                if t.text == "for":
+                    jj = k + 1
+                    while jj < brace:
+                        if btoks[jj].kind == "punct" and btoks[jj].text in "([":
+                            jj = match_close(btoks, jj)
+                        elif btoks[jj].kind == "ident" and btoks[jj].text == "in":
+                            in_end = btoks[jj].end
+                            break
+                        jj += 1
+                loop_positions.append((loop_idx, btoks[brace].start, t.text, in_end))
         k += 1
     for n, lines in fs.loops.items():
-        pos = [p for (i_, p, _) in loop_positions if i_ == n]
+        pos = [(p, ie) for (i_, p, _, ie) in loop_positions if i_ == n]
         if not pos:
             raise ExtractError("lost anchor: %s has no loop #%d (found %d)" % (fs.id, n, len(loop_positions)))
-        inserts.append((pos[0], "split", lines))
+        inserts.append((pos[0][0], "split", lines))
+        if n in fs.loop_iter:
+            if pos[0][1] is None:
+                raise ExtractError("lost anchor: loop #%d of %s is not a `for .. in` loop" % (n, fs.id))
+            # ghost name of the iterator (Verus `for x in it: expr`): a pure insertion on its own line
+            inserts.append((pos[0][1], "split", [" " + fs.loop_iter[n] + ":"]))
     # body-start
     if fs.body_start:
         inserts.append((1, "after-brace", fs.body_start))
